@@ -28,7 +28,7 @@ RULE = ('cases = (pass-through function, table, arguments, target kind); seeded 
         'Non-trivial: the table has >= 2 data rows. Distinct = SHA-1 of the case.')
 ASSUMPTIONS = ['tee targets: MemorySource and plain file paths', 'a tee is compared with to* only after it was iterated to the end']
 FNS = ['teecsv', 'teetsv', 'teepickle', 'teetext', 'teehtml', 'progress', 'log_progress', 'clock', 'cache', 'wrap']
-REQUIRED = ['table-without-any-row'] + ['fn:' + f for f in FNS] + ['tee-bytes-compared', 'ragged-table', 'header-only-table', 'write_header=False', 'file-target', 'memory-target',
+REQUIRED = ['table-without-any-row', 'header-without-fields', 'explicit-csv-dialect'] + ['fn:' + f for f in FNS] + ['tee-bytes-compared', 'ragged-table', 'header-only-table', 'write_header=False', 'file-target', 'memory-target',
                                          'cache-limited', 'non-utf8-encoding', 'cache-interleaved-iterators']
 TEXT = ['', 'a', 'b c', 'x,y', 'q"q', "it's", 'é', '€', 'l1\nl2', 'cr\rlf', 'tab\there', '<b>&amp;</b>', ' pad ', '1', '2.5', 'None']
 MIXED = TEXT + [None, 0, 1, -3, 2.5, True, gen.D(2020, 1, 1), (1, 2), b'by']
@@ -44,8 +44,9 @@ def cases(ctx):
         t = gen.table(rng, nrows=n, nfields=nf, pool=pool, ragged=0.35 if rng.random() < 0.4 else 0.0)
         if rng.random() < 0.3:
             t[0] = [rng.choice(['h', 'héader', 'a b', 'x<y']) + str(j) for j in range(nf)]
-        if fn.startswith('tee') and fn != 'teetext' and rng.random() < 0.04:
-            t = []           # a table that yields nothing at all, not even a header: the tee target still equals what to* writes for it
+        if fn != 'teetext' and rng.random() < 0.04:
+            t = []           # a table that yields nothing at all, not even a header: nothing comes out (and the tee target still equals
+            #                  what to* writes for it)
         c = {'fn': fn, 'table': t, 'target': rng.choice(['memory', 'file'])}
         if fn.startswith('tee'):
             # an earlier pass over the same tee view (abandoned after the header or a few rows, or complete) before the judged one:
@@ -55,16 +56,23 @@ def cases(ctx):
             c['write_header'] = rng.random() < 0.75
             c['encoding'] = rng.choice([None, 'utf-8', 'utf-16', 'latin-1', 'utf-8-sig'])
             c['csvargs'] = rng.choice([{}, {}, {'delimiter': ';'}, {'quotechar': "'"}, {'quoting': 1}, {'quoting': 2}, {'lineterminator': '\n'},
-                                       {'delimiter': '|', 'quoting': 1}])
-            if fn == 'teetsv' and 'delimiter' in c['csvargs']:
+                                       {'delimiter': '|', 'quoting': 1}, {'dialect': 'unix'}, {'dialect': 'excel'}, {'dialect': 'excel-tab'},
+                                       {'dialect': 'unix', 'delimiter': ';'}])
+            if fn == 'teetsv' and 'delimiter' in c['csvargs'] and 'dialect' not in c['csvargs']:
                 c['csvargs'] = {}
         elif fn == 'teepickle':
             c['write_header'] = rng.random() < 0.75
             c['protocol'] = rng.choice([-1, 0, 2, 4])
         elif fn == 'teetext':
+            if rng.random() < 0.04:
+                t = rng.choice([[[]], [()], [[], [], []]])        # a header without any field (and rows without any cell)
+                c['table'] = t
+                c['zero-fields'] = True
             c['encoding'] = rng.choice([None, 'utf-8', 'utf-16', 'latin-1'])
             c['template'] = rng.choice(['{f0}\n', '{f0}|{%s}\r\n' % ('f%d' % (nf - 1)), 'row: {f0!r} / {f0}\n'])
-            if not all(str(h).startswith('f') for h in t[0]):
+            if c.get('zero-fields'):
+                c['template'] = 'row\n'
+            elif not all(str(h).startswith('f') for h in t[0]):
                 t[0] = gen.fieldnames(nf)
             c['prologue'] = rng.choice([None, 'BEGIN\n', 'é\n'])
             c['epilogue'] = rng.choice([None, 'END\n'])
@@ -107,6 +115,10 @@ def judge(case, ctx):
     n = len(rows) - 1
     if not table:
         ctx.seen('table-without-any-row')
+    elif len(table[0]) == 0:
+        ctx.seen('header-without-fields')
+    if 'dialect' in (case.get('csvargs') or {}):
+        ctx.seen('explicit-csv-dialect')
     if n >= 2:
         ctx.mark_nontrivial()
     if n == 0:
